@@ -6,6 +6,7 @@ import tokenize
 from typing import Dict, List, Optional, Set, Tuple
 
 from .. import fold, rca
+from ..cfg import CFG
 from ..core import AnalysisError, call_name, calls_in, const_str, walk_local, is_self_attr
 
 EXPLANATION = (
@@ -193,46 +194,7 @@ def check(ctx, res) -> None:
     # ---- R14.6 line tables split at '\\n' only
     line_table_rule(ctx, res, "R14.6")
 
-    # ---- R14.5 escape parity: a scanner that captures the run of backslashes before a token may treat the token as
-    # escaped only when the run has ODD length (an even run is escaped backslashes followed by a live token)
-    from ..cfg import CFG
-
-    n5 = 0
-    for f in sorted(idx.functions.values(), key=lambda f: f.qualname):
-        if f.unit.modname not in ("rope.base.simplify", "rope.base.codeanalyze", "rope.base.worder"):
-            continue
-        # variables bound to a regex group that is a backslash run: m.group(k) where the class pattern's k-th group is (\\*)
-        runs = set()
-        pats = {}
-        if f.cls is not None:
-            for name, v in f.cls.class_attrs.items():
-                if isinstance(v, ast.Call) and call_name(v) == "compile" and v.args and const_str(v.args[0]) is not None:
-                    pats[name] = const_str(v.args[0])
-        for n in walk_local(f.node):
-            if isinstance(n, ast.Assign) and isinstance(n.targets[0], ast.Name) and isinstance(n.value, ast.Call) \
-                    and call_name(n.value) == "group" and n.value.args and isinstance(n.value.args[0], ast.Constant):
-                k = n.value.args[0].value
-                for pat in pats.values():
-                    groups = _top_groups(pat)
-                    if isinstance(k, int) and 0 < k <= len(groups) and groups[k - 1] in ("\\\\*", "\\\\+"):
-                        runs.add(n.targets[0].id)
-        if not runs:
-            continue
-        cfg = CFG(f.node)
-        for nd in cfg.nodes:
-            if nd.kind == "stmt" and isinstance(nd.ast, ast.Continue):
-                gs = [t for t, pol in cfg.guards(nd.id) if pol and any(isinstance(x, ast.Name) and x.id in runs for x in ast.walk(t))]
-                if not gs:
-                    continue
-                n5 += 1
-                parity = any(isinstance(x, ast.BinOp) and isinstance(x.op, ast.Mod) and isinstance(x.right, ast.Constant) and x.right.value == 2
-                             and any(isinstance(y, ast.Call) and call_name(y) == "len" for y in ast.walk(x.left)) for t in gs for x in ast.walk(t))
-                res.add("R14.5", f"{f.qualname.split('.', 2)[-1]}|escaped-token", parity, f"{f.unit.rel}:{nd.lineno}",
-                        "a token is skipped as escaped only on the parity of the preceding backslash run" if parity else
-                        f"{f.name} skips a token as 'escaped' on a test of the backslash run that is not its length parity ({[ast.unparse(t) for t in gs]}): "
-                        "a quote/bracket after an even run (escaped backslashes, e.g. 'C:\\\\') is ignored, the scanner stays inside the string and all following "
-                        "lines are merged into one logical line")
-    res.floor("R14.5", "escape decisions on a captured backslash run", n5, 1)
+    escape_parity_rule(ctx, res, "R14.5")
 
     # ---- R14.7 a backslash at the end of a physical line continues the logical line only when it is not inside a
     # comment: every assignment of a continuation flag under an `endswith("\\")` test is also guarded by a test that
@@ -351,7 +313,8 @@ def fstring_prefix_rule(ctx, res, rule: str) -> None:
     for k, nd in enumerate(keep_nodes, 1):
         wrong, unfolded = [], 0
         for pfx in prefixes:
-            env = {"matchgroups": {"prefix": pfx}}
+            # one string literal with this prefix, the way ignored_regions reports it
+            env = {"matchgroups": {"prefix": pfx}, "source": pfx + "'x'", "start": 0, "end": len(pfx) + 3}
             for st in locals_in_order:
                 try:
                     env[st.targets[0].id] = folder9.eval(rcf.unit.modname, st.value, env=dict(env))
@@ -381,3 +344,56 @@ def fstring_prefix_rule(ctx, res, rule: str) -> None:
                 "string, so code inside its braces is invisible to everything that works on the simplified text (a call there is not recognised as a call)",
                 function=rcf.qualname, wrong=wrong)
 
+
+def escape_parity_rule(ctx, res, rule: str) -> None:
+    """Shared by C14/C20 (the logical-line scanner decides where scopes end, which completion relies on)."""
+    idx = ctx.idx
+    # ---- R14.5 escape parity: a scanner that captures the run of backslashes before a token may treat the token as
+    # escaped only when the run has ODD length (an even run is escaped backslashes followed by a live token)
+    from ..cfg import CFG
+
+    n5 = 0
+    for f in sorted(idx.functions.values(), key=lambda f: f.qualname):
+        if f.unit.modname not in ("rope.base.simplify", "rope.base.codeanalyze", "rope.base.worder"):
+            continue
+        # variables bound to a regex group that is a backslash run: m.group(k) where the class pattern's k-th group is (\\*)
+        runs = set()
+        pats = {}
+        if f.cls is not None:
+            for name, v in f.cls.class_attrs.items():
+                if isinstance(v, ast.Call) and call_name(v) == "compile" and v.args and const_str(v.args[0]) is not None:
+                    pats[name] = const_str(v.args[0])
+        for n in walk_local(f.node):
+            if isinstance(n, ast.Assign) and isinstance(n.targets[0], ast.Name) and isinstance(n.value, ast.Call) \
+                    and call_name(n.value) == "group" and n.value.args and isinstance(n.value.args[0], ast.Constant):
+                k = n.value.args[0].value
+                for pat in pats.values():
+                    groups = _top_groups(pat)
+                    if isinstance(k, int) and 0 < k <= len(groups) and groups[k - 1] in ("\\\\*", "\\\\+"):
+                        runs.add(n.targets[0].id)
+        if not runs:
+            if f.qualname == "rope.base.codeanalyze._CustomGenerator._analyze_line":
+                # the anchor scanner no longer captures the backslash run: how does it decide 'escaped'?
+                look = [p_ for p_ in pats.values() if "(?<!\\\\)" in p_ or "(?<!\\)" in p_]
+                n5 += 1
+                res.add(rule, f"{f.qualname.split('.', 2)[-1]}|escaped-token", False if look else None, f.where,
+                        "" if not look else
+                        f"{f.name} decides that a quote/bracket is escaped with a look-behind for ONE backslash ({look[0][:40]}...) instead of the parity of the "
+                        "whole run: the closing quote of \"\\\\\" (an escaped backslash) is taken for an escaped quote, the scanner stays inside the string and all "
+                        "following lines are merged into one logical line")
+            continue
+        cfg = CFG(f.node)
+        for nd in cfg.nodes:
+            if nd.kind == "stmt" and isinstance(nd.ast, ast.Continue):
+                gs = [t for t, pol in cfg.guards(nd.id) if pol and any(isinstance(x, ast.Name) and x.id in runs for x in ast.walk(t))]
+                if not gs:
+                    continue
+                n5 += 1
+                parity = any(isinstance(x, ast.BinOp) and isinstance(x.op, ast.Mod) and isinstance(x.right, ast.Constant) and x.right.value == 2
+                             and any(isinstance(y, ast.Call) and call_name(y) == "len" for y in ast.walk(x.left)) for t in gs for x in ast.walk(t))
+                res.add(rule, f"{f.qualname.split('.', 2)[-1]}|escaped-token", parity, f"{f.unit.rel}:{nd.lineno}",
+                        "a token is skipped as escaped only on the parity of the preceding backslash run" if parity else
+                        f"{f.name} skips a token as 'escaped' on a test of the backslash run that is not its length parity ({[ast.unparse(t) for t in gs]}): "
+                        "a quote/bracket after an even run (escaped backslashes, e.g. 'C:\\\\') is ignored, the scanner stays inside the string and all following "
+                        "lines are merged into one logical line")
+    res.floor(rule, "escape decisions on a captured backslash run", n5, 1)
